@@ -298,8 +298,12 @@ func symBinop(op token.Token, t types.Type, x, y value) value {
 			return fromBoolTerm(p.Not(strEq(p, x, y)))
 		case token.ADD:
 			return concatStr([]value{x, y})
+		case token.LSS, token.LEQ, token.GTR, token.GEQ:
+			if t := enumOrder(p, op, x, y); t != nil {
+				return fromBoolTerm(t)
+			}
 		}
-		panic("symBinop: string op " + op.String())
+		panic(unsupported("string comparison " + op.String() + " on symbolic text"))
 	}
 	k, ok := valueKind(x)
 	if !ok {
@@ -466,4 +470,54 @@ func equalsShallow(a, b value) (eq bool) {
 		}
 	}()
 	return a == b
+}
+
+
+// enumOrder: ordering comparison where each side is a concrete string or a finite-choice string.
+func enumOrder(p *TermPool, op token.Token, x, y value) *Term {
+	type side struct {
+		choices []string
+		idx     *Term
+	}
+	mk := func(v value) *side {
+		switch v := v.(type) {
+		case string:
+			return &side{choices: []string{v}}
+		case *enumStr:
+			return &side{choices: v.choices, idx: v.idx}
+		}
+		return nil
+	}
+	a, b := mk(x), mk(y)
+	if a == nil || b == nil {
+		return nil
+	}
+	holds := func(s, t string) bool {
+		switch op {
+		case token.LSS:
+			return s < t
+		case token.LEQ:
+			return s <= t
+		case token.GTR:
+			return s > t
+		}
+		return s >= t
+	}
+	res := p.Bool(false)
+	for i, s := range a.choices {
+		for j, t := range b.choices {
+			if !holds(s, t) {
+				continue
+			}
+			c := p.Bool(true)
+			if a.idx != nil {
+				c = p.And(c, p.Cmp("=", a.idx, p.Const(8, uint64(i))))
+			}
+			if b.idx != nil {
+				c = p.And(c, p.Cmp("=", b.idx, p.Const(8, uint64(j))))
+			}
+			res = p.Or(res, c)
+		}
+	}
+	return res
 }
